@@ -5,7 +5,7 @@
    with the model run on the BLINDED configuration (every secret replaced by zeros of the same length). *)
 From Coq Require Import ZArith List Bool.
 Import ListNotations.
-From V Require Import Base.Tree Base.Bytes Gen.GenLogin Pkg.Fmts Pkg.LoginRec C01.Model C01.Spec Rx.Model Login.Model Login.Spec Login.Secrecy.
+From V Require Import Base.Tree Base.Bytes Gen.GenLogin Pkg.Fmts Pkg.LoginRec C15.Model C01.Model C01.Spec Rx.Model Login.Model Login.Spec Login.Secrecy Login.WireProofs.
 Open Scope Z_scope.
 
 (* Non-interference.  Two encrypted logins whose configurations agree on everything but the CONTENTS of the account
@@ -47,6 +47,17 @@ Theorem C09_first_message : forall c order, fields_fit c ->
     tx_ok 512 g_buf_login 0 0 (rec ++ caps_pkg order) w1 = true.
 Proof. exact first_message_wire. Qed.
 
+(* The second message is written under a legal packet size (the channel refuses announcements outside 9..65535) and,
+   when complete, goes out as well-formed packets (C01) whose payload is exactly the queued packages. *)
+Theorem C09_second_message_size : forall keycap c rounds pem nonce ps1,
+  d_key (decide keycap c rounds) = Some (pem, nonce, ps1) -> 9 <= ps1 <= 65535.
+Proof. exact second_message_size_ok. Qed.
+Theorem C09_second_message_wire : forall enc keycap symkey c pem nonce pkgs ps1 st,
+  second_message enc keycap symkey c pem nonce = (pkgs, true) -> 9 <= ps1 <= 65535 -> 0 <= tnr st < 256 -> tq st = empty_pq ->
+  exists w2 st', send_message ps1 0 g_buf_normal (pkgs_chunks pkgs) st = Some (w2, st') /\
+    tx_ok ps1 g_buf_normal 0 (tnr st) (concat pkgs) w2 = true.
+Proof. exact second_message_wire. Qed.
+
 (* Control (so that the oracle cannot pass vacuously): without encryption the password IS in its slot. *)
 Theorem C09_control_plain_password : forall c, enc_mode (lc_encrypt c) = false -> fields_fit c ->
   exists bs f, enc_login c = Some bs /\ parse_login_record bs = Some f /\ lf_password f = lc_password c.
@@ -58,3 +69,5 @@ Print Assumptions C09_second_message_shape.
 Print Assumptions C09_record_slots_empty.
 Print Assumptions C09_first_message.
 Print Assumptions C09_control_plain_password.
+Print Assumptions C09_second_message_size.
+Print Assumptions C09_second_message_wire.
